@@ -180,3 +180,7 @@ Proof.
             _ (gfar_opp t) (gfar_conj t) gclose_refl).
   destruct (gfar_0 t) as [H|H]; [exact H|congruence].
 Defined.
+
+Arguments qc a%Z b%positive.
+Arguments gq a%Z b%positive c%Z d%positive.
+Arguments gz a%Z.
